@@ -86,6 +86,9 @@ pub fn exec_run_opt(script: &RunScript, keep_log: bool, keep_text: bool, watchdo
   let alloc_period: u32 = script.alloc_period;
   crate::sched::RUN_ALLOC_PERIOD.store(alloc_period, std::sync::atomic::Ordering::SeqCst);
   let ev2 = evals.clone();
+  // exchange slots of this run: values put here by one thread are taken by another (hput/htake).
+  // A harness mutex, not one of the library's: no yield point, never contended under the baton.
+  let exchange: Arc<Vec<Mutex<Option<Handle>>>> = Arc::new((0..crate::script::GSLOTS).map(|_| Mutex::new(None)).collect());
   let body = move |tid: usize| {
     let ops = &threads[tid];
     let mut slots: Vec<Option<Handle>> = (0..SLOTS).map(|_| None).collect();
@@ -202,6 +205,18 @@ pub fn exec_run_opt(script: &RunScript, keep_log: bool, keep_text: bool, watchdo
             if ok_identity {
             ev2.lock().unwrap().push(EvalRec { tid: tid as u8, op: idx as u16, key: key_of(HSTEP_KEY[k], &base), class: out.class(), digest: out.digest(), text: clip(out.text(), keep_text), from_handle: true, rnew: None, seq: (s0, s1) });
             }
+          }
+        }
+        Op::HPut { slot, g } => {
+          if let Some(h) = slots[*slot].as_ref().filter(|h| h.reliable()) {
+            let c = h.dup();
+            *exchange[*g].lock().unwrap_or_else(|e| e.into_inner()) = Some(c);
+          }
+        }
+        Op::HTake { slot, g } => {
+          let got = exchange[*g].lock().unwrap_or_else(|e| e.into_inner()).take();
+          if got.is_some() {
+            slots[*slot] = got;
           }
         }
         Op::HClone { from, to } => {
